@@ -67,6 +67,15 @@ fn check_state<const M: usize>(cx: &mut Cx, g: &GlobalDescriptorTable<M>, refere
         }
         Err(()) => cx.r.viol(&format!("C14|MAX={}|from_raw_entries-rejects-valid-slice", M), hist, ""),
     }
+    // differential: the rebuilt table and a clone continue exactly like the original (one more append of each kind)
+    for d in [Descriptor::UserSegment(DescriptorFlags::USER_DATA.bits()), Descriptor::SystemSegment(0x0000_8900_0000_0067, 7)] {
+        let step = |mut t: GlobalDescriptorTable<M>| catch(move || { let s = t.append(d); (s.0, raw(&t), t.limit()) });
+        let a = step(g.clone());
+        let b = catch(|| GlobalDescriptorTable::<M>::from_raw_entries(reference)).map(step);
+        if b != Ok(a) {
+            cx.r.viol(&format!("C14|MAX={}|table-rebuilt-from-raw-entries-or-cloned-continues-differently", M), hist, "");
+        }
+    }
 }
 
 fn dfs<const M: usize>(cx: &mut Cx, g: &GlobalDescriptorTable<M>, reference: &Vec<u64>, depth: usize, dev: u32, hist: &mut Vec<String>) {
@@ -162,6 +171,29 @@ fn explore<const M: usize>(r: &mut Rep, a: &Args, max_dev: u32) {
     }
 }
 
+/// every other way to obtain a fresh table (new, Default, from_raw_entries(&[0]), clone) is the same initial state
+fn explore_ctors(r: &mut Rep, a: &Args) {
+    let ctors: [(&str, fn() -> GlobalDescriptorTable<8>); 5] = [
+        ("new", || GlobalDescriptorTable::new()),
+        ("default", || Default::default()),
+        ("from_raw_entries(&[0])", || GlobalDescriptorTable::<8>::from_raw_entries(&[0])),
+        ("new().clone()", || GlobalDescriptorTable::new().clone()),
+        ("mem::take(&mut appended)", || { let mut g = GlobalDescriptorTable::new(); g.append(Descriptor::kernel_code_segment()); let _old = core::mem::take(&mut g); g }),
+    ];
+    for (name, f) in ctors {
+        let mut cx = Cx { r, uv: user_vals(), sv: sys_vals(), max_dev: 1, shard: a.shard, nshards: a.nshards, leaf: 0 };
+        match catch(f) {
+            Ok(g) => {
+                let reference = vec![0u64];
+                cx.r.ev(true);
+                check_state(&mut cx, &g, &reference, &format!("gdt 8 ({})", name));
+                dfs(&mut cx, &g, &reference, 0, 0, &mut vec![format!("({})", name)]);
+            }
+            Err(()) => cx.r.viol("C14|MAX=8|constructor-panics", &format!("gdt 8 ({})", name), ""),
+        }
+    }
+}
+
 fn fill_big(r: &mut Rep, pattern: &str) {
     const M: usize = 8192;
     let mut g: Box<GlobalDescriptorTable<M>> = Box::new(GlobalDescriptorTable::<M>::empty());
@@ -223,7 +255,9 @@ pub fn run(a: &Args) {
     if let Some(c) = &a.replay {
         // replay: re-run the recorded history
         let t: Vec<&str> = c.split_whitespace().collect();
-        if t[0] == "gdt" {
+        if t[0] == "gdt" && c.contains('(') && !c.contains("(empty)") {
+            explore_ctors(&mut r, a);
+        } else if t[0] == "gdt" {
             let m: usize = t[1].parse().unwrap();
             let mut descs = Vec::new();
             for x in &t[2..] {
@@ -251,6 +285,7 @@ pub fn run(a: &Args) {
     guarded(&mut r, "C14|MAX=3|unexpected-panic", || "gdt 3".into(), |r| explore::<3>(r, a, 3));
     guarded(&mut r, "C14|MAX=8|unexpected-panic", || "gdt 8".into(), |r| explore::<8>(r, a, if t { 3 } else { 2 }));
     guarded(&mut r, "C14|MAX=9|unexpected-panic", || "gdt 9".into(), |r| explore::<9>(r, a, if t { 3 } else { 2 }));
+    guarded(&mut r, "C14|MAX=8|unexpected-panic", || "gdt 8 ctors".into(), |r| explore_ctors(r, a));
     if a.shard == 0 {
         for p in ["user", "system", "alternating"] {
             guarded(&mut r, "C14|MAX=8192|unexpected-panic", || format!("gdtfill {}", p), |r| fill_big(r, p));
@@ -260,7 +295,7 @@ pub fn run(a: &Args) {
     r.evals = 0;
     r.nontrivial = r.transitions;
     r.sample("gdt 3 U:20980000000000 S:ffff89a0... -> second append needs two slots, only one left: panic, table unchanged".into());
-    r.note("DFS over all {user,system}-kind append sequences up to MAX+1 appends for MAX in {1,2,3,8,9}; values: default per kind, each non-default value costs one deviation (bound 3; 2 for MAX>=8 in quick); MAX=8192: all-user/all-system/alternating fills to overflow");
+    r.note("initial states: empty() for every MAX, and new()/Default/from_raw_entries(&[0])/clone/mem::take for MAX=8; in every state the table rebuilt from its raw entries must continue identically; DFS over all {user,system}-kind append sequences up to MAX+1 appends for MAX in {1,2,3,8,9}; values: default per kind, each non-default value costs one deviation (bound 3; 2 for MAX>=8 in quick); MAX=8192: all-user/all-system/alternating fills to overflow");
     r.emit();
 }
 
